@@ -17,21 +17,30 @@ ASSUMPTIONS = [
     "finalizing instance is exercised by C09",
 ]
 META = {
-    "text": "Theorems (Coq, all operation histories and all placements of save points, model of BlockIndex mutators + "
-            "saveTree + loadTree): every block whose persisted projection changed since its last save is dirty "
-            "(dirty_complete); therefore loading the storage accumulated by incremental saves reproduces the persisted "
-            "projection of the state at the last save (save_load_roundtrip) and a crash between saves yields exactly the "
-            "state of the last completed save (crash_loses_only_tail). The pre-fix mutators (raiseValidity/lowerValidity "
-            "without setDirty) are kept as *_v0 and refuted by a 5-operation witness (F9, repaired in 0c5b5503). "
-            "Direct oracle on the rebuilt library: for generated histories and EVERY placement of up to 3 save points "
-            "(sampled for long histories) the instance reloaded from a copy of the storage taken at each save equals the "
-            "live instance at that save (full observation of all three trees) and answers every later operation "
-            "(setState/comparePopScore/getPopPayout/...) identically.",
-    "note": "Trusted: Coq kernel, extraction, OCaml driver, C++ harness (harness/h_store.cpp over harness/world.hpp), "
-            "generators. The model abstracts POP command execution into per-block field updates; the tie to the code "
-            "is the correspondence run (dirty sets before every save: model vs BlockIndex::isDirty()).",
+    "text": "Theorems (Coq, ALL operation histories with saves at ALL positions; model coq/Store/SaveLoadDefs.v of the "
+            "BlockIndex/addon mutators with exactly the setDirty() calls of the code, saveTree and loadTree): "
+            "C10_dirty_complete - a block that is not dirty is on disk with exactly its current persisted projection "
+            "(every change since the last write marks the block, also through the composite paths whose primitives do "
+            "not mark: clearPayloads+unsetFlag, setNull+raw status in deleteTemporarily); C10_save_load_roundtrip - "
+            "after the last save the storage accumulated by the incremental saves IS the full dump of the state, so "
+            "loading it equals loading a complete snapshot; C10_crash_loses_only_tail - nothing but a save writes, a "
+            "crash after a completed save loads exactly that save. C10_dirty_complete_v0_refuted documents repaired "
+            "defect F9 (raiseValidity without setDirty: stored 257 vs live 258). Not proved: that loading a complete "
+            "snapshot reproduces the live state (loadTip/recoverEndorsements re-derivation) - that half is checked by "
+            "the direct oracle and by the model/implementation comparison of load. Direct oracle on the rebuilt "
+            "library: for generated histories (forks, reorgs, invalid payloads, invalidate/revalidate, remove, "
+            "body-before-parent-body) and EVERY placement of up to 3 save points (sampled for long histories) a fresh "
+            "instance loaded from a copy of the storage taken at each save equals the live instance (full observation "
+            "of all three trees) and answers every later operation identically; with a save after every operation "
+            "every block whose persisted projection changed is dirty before the save.",
+    "note": "Trusted: Coq kernel, extraction, OCaml driver (ocaml/Store_driver.ml), C++ harness (harness/h_store.cpp "
+            "over harness/world.hpp), generators, the micro-op synthesis in props/_store.py (the model is driven by "
+            "the observed per-op change of each ALT block; compared: status words and tip after every op, model dirty "
+            "set within isDirty(), load result vs reloaded instance). Exclusions of the oracle are listed in the "
+            "evidence (persisted_equivalence). Deleted blocks are not persisted state: a reloaded instance forgets the "
+            "FAILED_BLOCK/FAILED_CHILD marks that deleteTemporarily keeps on removed blocks.",
     "technique": "Coq proof (invariant over op histories) + extraction-based differential correspondence + "
-                 "save-point enumeration with reload oracle",
+                 "save-point enumeration with reload/crash oracle",
 }
 
 CFG = {"alt_ki": 5, "alt_settle": 8, "payout_delay": 8, "payout_avg": 3}
@@ -47,7 +56,10 @@ EQUIV = (
     "the active chain, but the live active chain already carries both (setState/comparePopScore leave every active "
     "block fully valid), validity levels are stored in the status word and are not lowered by load, chainWork/"
     "endorsedBy/blockOfProof pointers/payload index are recomputed by loadBlockForward/recoverEndorsements to the "
-    "same values, deleted blocks are skipped by both getBlocks() and loadBlocksAndTip.")
+    "same values, deleted blocks are skipped by both getBlocks() and loadBlocksAndTip. Generator-level exclusion: a "
+    "block that carried BLOCK_FAILED_BLOCK/BLOCK_FAILED_CHILD when it was removed is never re-added (the live "
+    "instance remembers these marks on the deleted index, a reloaded one cannot: deleted blocks are skipped by "
+    "loadBlocksAndTip by design).")
 
 
 # ---------------------------------------------------------------------------
